@@ -71,7 +71,7 @@ def hbExpected : Option Oid → List Oid → List Ev → List Oid
       (match cur with
        | some o => hbExpected none (on.erase o) es
        | none => hbExpected none on es)
-    | .tCmd _ _ | .tInput _ _ | .tIt _ _ _ | .tCo _ _ | .tReset _ | .tCleanup _ | .tConnect _ | .tLogon _ | .cycle _ => hbExpected none on es
+    | .tCmd _ _ | .tInput _ _ | .tIt _ _ _ | .tPrompt _ | .tCo _ _ | .tReset _ | .tCleanup _ | .tConnect _ | .tLogon _ | .cycle _ => hbExpected none on es
     | _ => hbExpected cur on es
 
 def finalHbs (es : List Ev) : Option (List String) :=
